@@ -36,6 +36,10 @@ let () =
                 Printf.printf "C %d %d %d x%s\n" (i_of_n a) (i_of_n b) (if inl then 1 else 0) (hex_of_chars t)
             | Reader.RCpp (t, a, b) -> Printf.printf "P %d %d %s\n" (i_of_n a) (i_of_n b) (hex_of_chars t)) items;
           Printf.printf "END\n%!"
+      | ["DT"; n] ->
+          let n = int_of_string n in
+          let lines = Stdlib.List.init n (fun _ -> chars_of_hex (input_line stdin)) in
+          Printf.printf "%s\n%!" (if Detect.detect_free lines then "free" else "fixed")
       | ["LB"; hx] ->
           let (lab, rest) = Text.extract_label (chars_of_hex hx) in
           let (nm, rest2) = Text.extract_construct_name (chars_of_hex hx) in
